@@ -21,7 +21,7 @@ CHECKS = {
 
 CHECKS.update({
  "C04": ("exploration", "runtime monitor: online trace-specification checker (per-incarnation high-water mark) over call arguments/results, with restart and crash-recovery branches",
-         "Every successful append of generated idle/GC-heavy histories is checked against a high-water mark kept from arguments and results only; every queue is probed after every restart and, at sampled call boundaries, in a side branch recovered from the process-crash image.",
+         "Every successful append of generated idle/GC-heavy histories is checked against a high-water mark kept from arguments and results only; every queue is probed after every restart and, at sampled call boundaries, in a side branch recovered from the process-crash image (also an image torn inside a multi-frame append), which is then probed, restarted cleanly and read again.",
          "Crash branch assumes Always(Flush): directory content at a call boundary = process-crash image.", "4/C04", "driver+iotrace"),
  "C06": ("exploration", "runtime monitor: directory listing + syscall-trace bookkeeping of the current file after every truncate/delete_queue/open",
          "After each truncate/delete_queue/open the WAL files present must be a contiguous run ending at the file being written, none older than min(file current when the oldest retained record's append began, file current when the call began); disk_used_bytes must equal the summed sizes. The bound comes from the trace, not from the implementation's refcounts.",
@@ -50,11 +50,11 @@ CHECKS.update({
  "C13": ("exploration", "runtime monitor: syscall-trace window + snapshot/disk/content equality around every rejected or no-op call, and after an immediate restart",
          "Eight rejected/no-op shapes inserted at random points of histories under all six policies; the call's trace window (plus a trailing flush) must contain no mutating syscall, state, disk usage and WAL bytes must be unchanged, wal_bytes_written 0, and a restart must reproduce the pre-call state.",
          "Buffers are drained with persist(Flush) before the window so lazy policies cannot hide a write.", "4/C13", "driver+iotrace"),
- "C14": ("exploration", "runtime monitor: lock-step differential of one history across six persist policies (no reference model)",
-         "Outcomes (positions, eviction counts, error variants) and full observable states of six logs are compared after every call and restart; at the end every directory is reopened under a different policy.",
+ "C14": ("exploration", "runtime monitor: lock-step differential of one history across eight persist policies (no reference model)",
+         "Outcomes (positions, eviction counts, error variants) and full observable states of eight logs are compared after every call and restart (plus disk_used_bytes while the WAL streams are known to have equal length); at the end every directory is reopened under a different policy.",
          "Byte counts excluded (not in the statement); OnDelay(0) exercises the timed path.", "4/C14", "driver"),
  "C15": ("exploration", "runtime monitor: reported wal_bytes_written vs bytes of write syscalls on WAL files inside the call's trace window",
-         "Exact per-call equality under Always policies (all alignments, padding sizes, roll-over inside the call, GC position records), cumulative equality at drained points under lazy policies.",
+         "Exact per-call equality under Always policies (all alignments, padding sizes, roll-over inside the call, GC position records), cumulative equality at drained points under lazy policies; one truncate/delete in five meets an injected unlink failure (an Ok must still report the traced count).",
          "Bytes written by open()'s own GC pass are not surfaced by the API and are excluded.", "4/C15", "driver+iotrace"),
  "C16": ("exploration", "runtime monitor: resource_usage() inequalities against quantities computed from the observed snapshot after every call",
          "P+N <= used <= P+N+64R, used <= allocated, truncation releases what it evicts, names-only baseline when all queues are empty; payloads from 0 to hundreds of KiB; release and dev-profile builds.",
@@ -63,7 +63,7 @@ CHECKS.update({
          "Histories with roll-over and GC run next to near-miss names, sub-directories and symlinks named like WAL files, ordinary files; WAL files are renumbered with gaps at some restarts; every path-carrying syscall must name a regular wal-<20 digits> file, foreign entries must be byte-identical after every call, and behaviour must equal the clean twin's.",
          "Entries named exactly like WAL files are placed only at numbers the log never creates.", "4/C17", "driver+iotrace"),
  "C18": ("exploration", "runtime monitor: metamorphic comparison of a k-queue history with its per-queue projections, live, across restarts and after crash recovery",
-         "Each queue's outcomes and exists/range/last_position in the full run must equal those of the projected run at every own call and every restart; crash images of the full run inside calls addressed to other queues must recover every other queue exactly as projected.",
+         "Each queue's outcomes and exists/range/last_position in the full run must equal those of the projected run at every own call and every restart; crash images of the full run inside calls addressed to other queues must recover every other queue exactly as projected; power-loss images of a call boundary under Always(FlushAndFsync) must recover every queue not addressed last exactly as it was live.",
          "Model-free; C02's tolerance applies to the queue addressed by the in-flight call, which is skipped.", "4/C18", "driver+iotrace"),
 })
 
